@@ -8,6 +8,8 @@ R-C01-1  the closed-form aggregation sum is the doubling recurrence S <- S + S*T
 R-C01-2  padding and table have one origin at both mixed MSMs (prover: the statement; verifier: the statement selected by the index
          returned from the consistency function, vectors sized by the length returned with it) -- breaks mixed-capacity configurations
 R-C01-3  prover and verifier both build the range polynomial vector d with radix 2 (conditional idiom rule)
+R-C01-5  (= R-C03-6) honest proofs verify in every batch order: the per-proof loop of the verifier carries no state between members
+         other than the gate's accumulators, the result vector and the weight RNG
 R-C01-4  the prover refuses no valid witness: its witness-dependent rejections are exactly the five documented checks, with the right
          constants and quantifiers (= R-C06-1/2; an honest prover that is refused yields no accepted proof)
 """
@@ -39,3 +41,5 @@ def run(ctx):
     from . import C06
     from .common import shared
     shared(ctx, C06.run, 'R-C06', 'R-C01-4')
+    from . import C03
+    shared(ctx, C03.per_member_independence, 'R-C03-6', 'R-C01-5')
